@@ -4,6 +4,8 @@ import (
 	"bufio"
 	"encoding/json"
 	"os"
+	"strconv"
+	"strings"
 	"time"
 )
 
@@ -39,6 +41,7 @@ func LoadJob() (*Job, error) {
 // RunJob executes a job with the engine's run function and writes one JSON
 // line per run.
 func RunJob(j *Job, run func(t *Tape, profile, tier string) *RunResult) error {
+	run = withRaceLog(run)
 	f, err := os.Create(j.Out)
 	if err != nil {
 		return err
@@ -92,4 +95,39 @@ func RunJob(j *Job, run func(t *Tape, profile, tier string) *RunResult) error {
 		}
 	}
 	return nil
+}
+
+// withRaceLog turns reports of the race detector (binary built with -race,
+// GORACE log_path = $VERIF_RACE_LOG) that appear during a run into a violation
+// of the profile's property.
+func withRaceLog(run func(t *Tape, profile, tier string) *RunResult) func(t *Tape, profile, tier string) *RunResult {
+	base := os.Getenv("VERIF_RACE_LOG")
+	if base == "" {
+		return run
+	}
+	path := base + "." + strconv.Itoa(os.Getpid())
+	size := func() int64 {
+		if st, err := os.Stat(path); err == nil {
+			return st.Size()
+		}
+		return 0
+	}
+	return func(t *Tape, profile, tier string) *RunResult {
+		before := size()
+		r := run(t, profile, tier)
+		if after := size(); after > before {
+			b, _ := os.ReadFile(path)
+			rep := string(b[before:])
+			// the goroutine / address details differ between processes: keep the access sites
+			var sites []string
+			for _, l := range strings.Split(rep, "\n") {
+				l = strings.TrimSpace(l)
+				if strings.HasPrefix(l, "go.sia.tech/core/") && len(sites) < 6 {
+					sites = append(sites, strings.SplitN(l, "(", 2)[0])
+				}
+			}
+			r.Violations = append(r.Violations, Violation{Property: profile, Invariant: "data-race", Detail: "the race detector reported a data race while concurrent callers used the library on shared inputs: " + strings.Join(sites, " / ")})
+		}
+		return r
+	}
 }
